@@ -2,7 +2,7 @@
 import lib
 import log_common as L
 
-ALLOWED_AXIOMS = frozenset(set(L.PRIMITIVES) | set(lib.AX_REALS))
+ALLOWED_AXIOMS = frozenset(set(L.PRIMITIVES) | set(lib.AX_REALS) | set(lib.AX_FLOAT) | set(L.AX_UINT63))
 MANIFEST = dict(
     category="proof",
     text="Coq theorems over the branch-for-branch model CmsLog.v of _rand/_log_counter/_add_log*/_merge_log*: "
@@ -11,7 +11,8 @@ MANIFEST = dict(
          "C06_unit_increment / C06_cond_expect / C06_expect (real-number law: P(step)*size(step) = 1 for every counter, "
          "hence E[estimate after N adds] = start + N - time spent at the ceiling, exact while N <= umax - c0), "
          "C06_lower (min(truth, num_reserved+1) <= min counter on every history of adds, ngram adds, merges, save/load, "
-         "for every draw stream), C06_rand_stream (n calls of _rand return the next n unconsumed values in order; nothing "
+         "for every draw stream; C06_lower_float removes the condition on the merge rule by one evaluation on the decode table), "
+         "C06_rand_stream (n calls of _rand return the next n unconsumed values in order; nothing "
          "skipped or reread; pointer in 1..2048; stated over the batch constants re-read from the source). Tied to the "
          "code by driving the real CountMinLog8/CountMinLog16: every counter value x configuration grid x draws placed "
          "one ulp around base**-(c-nr) written into rand_nums, refills across the batch boundary with Numba's generator "
@@ -22,8 +23,12 @@ MANIFEST = dict(
          "(sig_forall_dec, functional_extensionality_dep); libm pow enters only as the two tables read from the "
          "implementation, whose conditions (powneg 0 = 1, monotone, decode c = c on 0..nr+1, recurrences to 2^-45 "
          "in exact arithmetic) are checked by computation on every tested configuration; np.random uniformity is "
-         "not shown; C06_lower's merge clause is conditional on merge_lower_ok, discharged per log8 configuration by "
-         "evaluating all 65536 counter pairs and sampled for log16.",
+         "not shown; C06_lower's merge clause is conditional on merge_lower_ok, discharged (i) per log8 configuration by "
+         "evaluating all 65536 counter pairs and (ii) for any configuration, log16 included, by C06_lower_float from the "
+         "boolean float_tables_ok_b evaluated on the table of every tested configuration; that theorem reasons about "
+         "binary64 results and uses the standard library's FloatAxioms (add/sub/div/leb/ltb/eqb/of_uint63 specifications, "
+         "Prim2SF_valid, SF2Prim_Prim2SF, Prim2SF_SF2Prim), the Uint63 specification axioms and Flocq 4.1 (real axioms, "
+         "Classical_Prop.classic).",
     technique="Coq proof over a hand transcription + vm_compute correspondence against the Numba kernels with controlled draws")
 
 
@@ -287,7 +292,7 @@ def run_history(ctx, cfg, width, depth, keys, ops, merge_free, truth0=None):
 
 def table_cases(cfg, grid):
     """Coq boolean conditions on the tables of one configuration (DESIGN 3.4), as `inl i` cases"""
-    return [f"(inl {i})" for i in range(8 if grid else 7)]
+    return [f"(inl {i})" for i in range(9 if grid else 8)]
 
 
 def table_check_fn(cfg, sample=False):
@@ -309,6 +314,7 @@ def table_check_fn(cfg, sample=False):
             f"| 5 => decode_recurrence_b 45 {nr} {b} dc {dcs} "
             f"| 6 => let cs := (zrange 0 (Z.min 300 ({umax} - {nr})) ++ map (fun i => i * 61) (zrange 0 (({umax} - {nr}) / 61)))%list in "
             f"f2me_agree_b pn cs && f2me_agree_b dc cs && dy_eqb (f2me {b}) (f2me_spec {b}) "
+            f"| 7 => float_tables_ok_b {nr} {umax} {mc} dc && float_tables_empty_ok_b {nr} {umax} {mc} dc "
             f"| _ => merge_grid_b {nr} {umax} {mc} dc {w} end)")
 
 
@@ -467,6 +473,7 @@ def run(ctx):
                              "powneg strictly decreasing and positive", "powneg recurrence within 2^-45",
                              "decode recurrence within 2^-45 of value + b^c'/(b-1)",
                              "fast exact decoding of floats agrees with the standard library's Prim2SF",
+                             "float_tables_ok_b / float_tables_empty_ok_b (premise of C06_lower_float, C09_log_*_float)",
                              "merge grid (ge/range/lower/comm/reserved/empty)"]
                     ctx.broken.append(f"table condition '{names[b]}' fails inside Coq for configuration {cfg.key()}")
                 else:
